@@ -28,7 +28,7 @@ fn jesc(s: &str) -> String { js(s) }
 fn observe<L: leptos_i18n::Locale, SL: leptos_i18n::Locale<L>>(id: u32, scoped: impl Fn(L) -> SL, near: &[&str]) {
     use std::str::FromStr;
     use leptos_i18n::reexports::icu::locid::{LanguageIdentifier, Locale as IcuLocale};
-    let ld = icu_locid_transform::LocaleDirectionality::new();
+    let ld = icu_locid_transform::LocaleDirectionality::new_with_expander(icu_locid_transform::LocaleExpander::new_extended());
     let all: Vec<String> = L::get_all().iter().map(|l| l.as_str().to_string()).collect();
     emit(id, "get_all", &all.join(","));
     emit(id, "default", L::default().as_str());
